@@ -11,10 +11,17 @@ fn pipeline_fwd(op: &Op, ctx: &dyn Context, operands: &mut dyn CoordinateSet) ->
         if step.params.boolean("omit_fwd") {
             continue;
         }
-        let m = match step.params.name.as_str() {
-            "push" => do_the_push(&mut stack, operands, &step.params.boolean),
-            "pop" => do_the_pop(&mut stack, operands, &step.params.boolean),
-            "stack" => stack_fwd(&mut stack, operands, &step.params),
+        // The stack operators are executed here, not by the step itself, so this
+        // is also the place to honour their inv modifier
+        let m = match (step.params.name.as_str(), step.descriptor.inverted) {
+            ("push", false) | ("pop", true) => {
+                do_the_push(&mut stack, operands, &step.params.boolean)
+            }
+            ("pop", false) | ("push", true) => {
+                do_the_pop(&mut stack, operands, &step.params.boolean)
+            }
+            ("stack", false) => stack_fwd(&mut stack, operands, &step.params),
+            ("stack", true) => stack_inv(&mut stack, operands, &step.params),
             _ => step.apply(ctx, operands, Fwd),
         };
         n = n.min(m);
@@ -37,10 +44,15 @@ fn pipeline_inv(op: &Op, ctx: &dyn Context, operands: &mut dyn CoordinateSet) ->
             continue;
         }
         // Note: Under inverse invocation "push" calls pop and vice versa
-        let m = match step.params.name.as_str() {
-            "push" => do_the_pop(&mut stack, operands, &step.params.boolean),
-            "pop" => do_the_push(&mut stack, operands, &step.params.boolean),
-            "stack" => stack_inv(&mut stack, operands, &step.params),
+        let m = match (step.params.name.as_str(), step.descriptor.inverted) {
+            ("push", false) | ("pop", true) => {
+                do_the_pop(&mut stack, operands, &step.params.boolean)
+            }
+            ("pop", false) | ("push", true) => {
+                do_the_push(&mut stack, operands, &step.params.boolean)
+            }
+            ("stack", false) => stack_inv(&mut stack, operands, &step.params),
+            ("stack", true) => stack_fwd(&mut stack, operands, &step.params),
             _ => step.apply(ctx, operands, Inv),
         };
         n = n.min(m);
